@@ -11,6 +11,7 @@ import (
 
 func init() {
 	vrtHarnesses["VerifC12Matching"] = VerifC12Matching
+	vrtHarnesses["VerifC12Schedules"] = VerifC12Schedules
 }
 
 // c12Response: a minimal well-formed terminal response of the given type echoing serial es.
@@ -119,4 +120,95 @@ func VerifC12Matching() {
 		}
 	}
 	vrt_Cover("serial-wrap", pre >= 0xfffe)
+}
+
+// VerifC12Schedules: one online terminal, two callers with commands of different types, a
+// heartbeat and two general responses whose echoed serials are symbolic (0..3: the first command's,
+// the second's, the heartbeat reply's, none), all issued back to back or one after the other, under
+// the default schedule and every schedule within the deviation bound (fork points as in C13).
+// Checked on the final quiescent state, after every timer has expired: each command was written
+// exactly once, with distinct serials; each call returned exactly once; a call that returned
+// without error holds the response that echoes the serial its own command was written with; a call
+// that returned an error holds the timeout error; the heartbeat was answered.
+func VerifC12Schedules() {
+	vrt_ClockFrozen()
+	vrt_Sched(0)
+	g := &GoJT808{}
+	sm := newSessionManager(func(m *Message) (string, bool) { return m.JTMessage.Header.TerminalPhoneNo, true })
+	vrt_Go(sm.run)
+	ev := &vRecorder{}
+	conn := vrt_NewTCPConn()
+	vrt_ConnLive(conn)
+	c := newConnection(conn, g.createDefaultHandle(), ev, true, sm.join, sm.leave)
+	vrt_Go(c.reader)
+	vrt_Go(c.write)
+	phone := []byte{0x01, 0x23, 0x45, 0x67, 0x89, 0x03}
+	key := jt808BcdString(phone)
+	vrt_ConnPushRead(conn, (&vFrame{id: 0x0002, phone: phone, serial: 1}).bytes())
+	vrt_Quiesce()
+	k := 1
+	if vrt_Tier() > 0 {
+		k = 2
+	}
+	backToBack := vrt_Choose("backToBack", 2) == 1
+	es := vrt_Bytes("echoed", 2)
+	vrt_Assume(es[0] < 4 && es[1] < 4)
+	vrt_Sched(k)
+	cmds := []uint16{0x8104, 0x8801}
+	res := make([]*Message, 2)
+	returns := make([]int, 2)
+	settle := func() {
+		if !backToBack {
+			vrt_Yield()
+		}
+	}
+	for i := 0; i < 2; i++ {
+		i := i
+		vrt_Go(func() {
+			res[i] = sm.write(NewActiveMessage(key, consts.JT808CommandType(cmds[i]), []byte{byte(i)}, time.Duration(1-i)*1500*time.Millisecond))
+			returns[i]++
+		})
+		settle()
+	}
+	vrt_ConnPushRead(conn, (&vFrame{id: 0x0001, phone: phone, serial: 2, body: []byte{0, es[0], 0x81, 0x04, 0}}).bytes())
+	settle()
+	vrt_ConnPushRead(conn, (&vFrame{id: 0x0002, phone: phone, serial: 3}).bytes())
+	settle()
+	vrt_ConnPushRead(conn, (&vFrame{id: 0x0001, phone: phone, serial: 4, body: []byte{0, es[1], 0x88, 0x01, 0}}).bytes())
+	vrt_Quiesce()
+	vrt_Wake()
+	vrt_Quiesce()
+	// what went out on the socket
+	serialOf := []int{-1, -1}
+	written := []int{0, 0}
+	generals := 0
+	for _, fr := range c06Frames(vrt_ConnWritten(conn)) {
+		ok, id, _, serial, _ := c06Unframe(fr, false)
+		vrt_Assert(ok, "the server wrote a frame that does not decode")
+		for i := 0; i < 2; i++ {
+			if id == cmds[i] {
+				written[i]++
+				serialOf[i] = int(serial)
+			}
+		}
+		if id == 0x8001 {
+			generals++
+		}
+	}
+	vrt_Assert(written[0] == 1 && written[1] == 1, "a command was not written exactly once")
+	vrt_Assert(serialOf[0] != serialOf[1], "two commands were written with the same platform serial")
+	vrt_Assert(generals == 2, "ordinary traffic (heartbeats) was not answered exactly once each while commands were outstanding")
+	for i := 0; i < 2; i++ {
+		vrt_Assert(returns[i] == 1 && res[i] != nil, "a call did not return exactly once")
+		if res[i].ExtensionFields.Err == nil {
+			vrt_Assert(int(res[i].ExtensionFields.PlatformSeq) == serialOf[i], "a caller received a response matched to another command's serial")
+			echoes := (int(es[0]) == serialOf[i]) || (int(es[1]) == serialOf[i])
+			vrt_Assert(echoes, "a caller received a response although no response echoed its command's serial")
+			vrt_Cover("answered", true)
+		} else {
+			vrt_Assert(errors.Is(res[i].ExtensionFields.Err, ErrWriteDataOverTime), "an unanswered call must return the timeout error")
+			vrt_Cover("timed-out", true)
+		}
+	}
+	vrt_Cover("back-to-back", backToBack)
 }
